@@ -6,6 +6,7 @@ import RactorModel.Lemmas.AdmissionQueue
 import RactorModel.Lemmas.AdmissionOracle
 import RactorModel.Lemmas.AdmissionShut
 import RactorModel.Lemmas.Early
+import RactorModel.Lemmas.StopPortsRun
 
 /-!
 # C07 — drain processes everything accepted and admits nothing afterwards
@@ -321,8 +322,112 @@ example :
     s.handled = [0, 1] ∧ s.accepted = [0, 1] ∧ s.reason = some "T:Drained" ∧ s.startResult = some "ok" := by
   decide
 
+/-! ## Round 4 — the one-shot stop / signal ports racing with drain and the actor's loop
+
+Model `Model/StopPorts.lean`: any number of threads, each running any program of `stop(reason)`,
+`kill()`, `drain()` (two atomic steps) and sends; the actor task polled at any moments (`poll fin`:
+one poll; `fin` = the handler / `post_stop` future completes in it) and `ActorPortSet::drop`.
+All theorems are for ALL thread programs and ALL schedules. -/
+
+section ports
+open StopPorts
+
+/-- **At most one stop request is ever accepted by the stop port** (`send_stop` takes the one-shot
+sender out of the `Option`: the first caller wins). -/
+theorem at_most_one_stop_accepted (progs : List (List StopPorts.Op)) (sched : List StopPorts.Tid) :
+    (StopPorts.run (StopPorts.init progs) sched).s.calls.countP Call.stopAcc ≤ 1 := by
+  have := (inv_reach progs sched).stop_one; omega
+
+/-- … and at most one signal by the signal port. -/
+theorem at_most_one_kill_accepted (progs : List (List StopPorts.Op)) (sched : List StopPorts.Tid) :
+    (StopPorts.run (StopPorts.init progs) sched).s.calls.countP Call.killAcc ≤ 1 := by
+  have := (inv_reach progs sched).kill_one; omega
+
+/-- **Every other caller observed a refusal, and the first one did not:** the first stop (kill)
+request is accepted unless the actor had already dropped its ports, and nothing is accepted after
+the ports were dropped. -/
+theorem first_request_wins (progs : List (List StopPorts.Op)) (sched : List StopPorts.Tid) :
+    let s := (StopPorts.run (StopPorts.init progs) sched).s
+    (∀ c, s.calls.find? (fun c => !c.kill) = some c → c.accepted = true ∨ c.epoch = 3) ∧
+    (∀ c, s.calls.find? (fun c => c.kill) = some c → c.accepted = true ∨ c.epoch = 3) ∧
+    (∀ c ∈ s.calls, c.epoch = 3 → c.accepted = false) := by
+  have h := inv_reach progs sched
+  exact ⟨h.first_stop, h.first_kill, h.no_acc_gone⟩
+
+/-- **Exactly one stop reason wins, by the priority rule.** Whenever the actor has fixed its exit
+reason `r` (what the supervisor is told):
+`r = killed` iff a kill was accepted before the loop's decisive poll (the last poll of `post_stop`);
+otherwise `r = stop x` iff a stop with reason `x` was accepted before the loop chose its exit;
+otherwise `r = Drained` (and then a drain marker had been sent). -/
+theorem exit_reason_is_the_priority_winner (progs : List (List StopPorts.Op)) (sched : List StopPorts.Tid)
+    (r : Reason) (he : (StopPorts.run (StopPorts.init progs) sched).s.phase.exit? = some r) :
+    let s := (StopPorts.run (StopPorts.init progs) sched).s
+    (r = .killed ↔ killInTime s) ∧
+    (∀ x, r = .stop x ↔ ¬ killInTime s ∧ ∃ c ∈ s.calls, c.stopAcc = true ∧ c.epoch = 0 ∧ c.reason = x) ∧
+    (r = .drained ↔ ¬ killInTime s ∧ ¬ ∃ c ∈ s.calls, c.stopAcc = true ∧ c.epoch = 0) ∧
+    (r = .drained → s.marker = true) := by
+  have h := inv_reach progs sched
+  refine ⟨exit_killed_iff h he, exit_stop_iff h he, exit_drained_iff h he, ?_⟩
+  rintro rfl
+  exact (h.exit_drained (Phase.exit_chosen _ _ he)).1
+
+/-- **The fate of a `stop()` that returned Ok, exactly.** If it was accepted before the loop chose
+its exit, its reason is the exit reason unless a kill pre-empted it; if it slipped in later (the
+loop had already taken the drain marker or a signal, ports not yet dropped) the exit reason is
+"Drained" or "killed" and the request is flushed with the ports. -/
+theorem accepted_stop_wins_or_is_preempted (progs : List (List StopPorts.Op)) (sched : List StopPorts.Tid)
+    (r : Reason) (he : (StopPorts.run (StopPorts.init progs) sched).s.phase.exit? = some r)
+    (c : Call) (hc : c ∈ (StopPorts.run (StopPorts.init progs) sched).s.calls) (hs : c.stopAcc = true) :
+    (c.epoch = 0 → r = .stop c.reason ∨ r = .killed) ∧ (1 ≤ c.epoch → r = .drained ∨ r = .killed) :=
+  accepted_stop_fate (inv_reach progs sched) he hc hs
+
+/-- **No message overtakes a pending stop or signal**, and **a request accepted in time ends the
+actor**: the run-time oracle `StopPorts.Obs.violations` — the function the driver evaluates on the
+implementation's observations (every caller's result, the exit reason the supervisor saw) — is empty
+in every reachable state of the model; with `final` (the actor task ran until it blocked) this
+includes: a stop / kill accepted before the decisive poll ⇒ the actor has exited. -/
+theorem stop_port_oracle_holds_of_model (progs : List (List StopPorts.Op)) (sched : List StopPorts.Tid)
+    (final : Bool) (hf : final = true → blocked (StopPorts.run (StopPorts.init progs) sched).s = true) :
+    (obsOf (StopPorts.run (StopPorts.init progs) sched).s final).violations = [] :=
+  violations_nil (inv_reach progs sched) final hf
+
+/-- E-SRC: the arm order the model's `pick` and `poll` follow is the one in the source. -/
+theorem src_port_priority :
+    Extracted.selectArmVariants = [StopPorts.pickOrder, StopPorts.pickOrder] ∧
+    Extracted.runWithSignalArms = StopPorts.runWithSignalOrder ++ StopPorts.runWithSignalOrder := by
+  decide
+
+/-- Non-vacuity: three stoppers with distinct reasons, a killer and a drainer on one actor. Stop 2
+is accepted first, 1 and 3 are refused; the loop takes the stop, the kill lands while `post_stop`
+runs: the supervisor is told "killed". Without the kill the reason is stop 2. -/
+example :
+    let g := StopPorts.run (StopPorts.init [[.stop (some 1)], [.stop (some 2)], [.stop (some 3)], [.kill], [.drain]])
+      [.t 4, .t 1, .t 0, .t 4, .poll true, .t 2, .t 3, .poll true, .dropPorts]
+    g.s.phase = .gone .killed ∧ g.s.calls.map (·.accepted) = [true, false, false, true] ∧
+    g.s.calls.map (·.epoch) = [0, 0, 1, 1] := by decide
+
+example :
+    let g := StopPorts.run (StopPorts.init [[.stop (some 1)], [.stop (some 2)], [.send, .drain]])
+      [.t 2, .t 1, .t 0, .t 2, .poll true, .poll true, .dropPorts, .t 2]
+    g.s.phase = .gone (.stop (some 2)) ∧ g.s.handled = 0 ∧ blocked g.s = true := by decide
+
+/-- a stop that returned Ok and lost to "Drained": accepted after the loop took the marker -/
+example :
+    let g := StopPorts.run (StopPorts.init [[.drain], [.stop (some 7)]])
+      [.t 0, .t 0, .poll true, .t 1, .poll true, .dropPorts]
+    g.s.phase = .gone .drained ∧ g.s.calls = [⟨false, some 7, true, 1⟩] := by decide
+
+end ports
+
 end C07
 
+#print axioms C07.at_most_one_stop_accepted
+#print axioms C07.at_most_one_kill_accepted
+#print axioms C07.first_request_wins
+#print axioms C07.exit_reason_is_the_priority_winner
+#print axioms C07.accepted_stop_wins_or_is_preempted
+#print axioms C07.stop_port_oracle_holds_of_model
+#print axioms C07.src_port_priority
 #print axioms C07.send_after_close_rejected
 #print axioms C07.send_started_after_close_is_rejected
 #print axioms C07.first_step_records_closed
